@@ -248,6 +248,34 @@ def check_dataset(col, entry, dataset, trans_by_episode, det):
                 col.violation(SIG.format(entry, "stored-reward!=that-step's-reward"), dict(det, episode=i, k=k))
 
 
+def check_prepared(col, dataset, trans_by_episode, env, det):
+    """The flattened arrays the learners consume (observations, actions, successor observations) must be the
+    environment's transitions in order - in particular the successor of an episode's last step is that
+    step's own successor, not the next episode's reset observation."""
+    entry = "EpisodeDataset.prepare_policy_gradient_dataset"
+    try:
+        obs, act, nobs, _ret, _disc = dataset.prepare_policy_gradient_dataset(env.action_space, 0.9)
+    except Exception as e:  # noqa: BLE001
+        col.violation(SIG.format(entry, "raised"), dict(det, error=f"{type(e).__name__}: {str(e)[:120]}"))
+        return
+    flat = [t for ep in trans_by_episode for t in ep]
+    obs, act, nobs = np.asarray(obs), np.asarray(act), np.asarray(nobs)
+    col.tick(1)
+    if len(obs) != len(flat) or len(nobs) != len(flat) or len(act) != len(flat):
+        col.violation(SIG.format(entry, "episode-records-do-not-match-executed-episodes"), dict(det, got=[len(obs), len(act), len(nobs)], expected=len(flat)))
+        return
+    for i, (o, a, _r, o2, _t, _u) in enumerate(flat):
+        if not np.array_equal(obs[i], o):
+            col.violation(SIG.format(entry, "stored-observation!=last-env-observation"), dict(det, index=i, stored=obs[i], expected=o))
+            break
+        if not np.array_equal(np.asarray(act[i]).reshape(-1), np.asarray(a).reshape(-1)):
+            col.violation(SIG.format(entry, "stored-action!=action-passed-to-env"), dict(det, index=i))
+            break
+        if not np.array_equal(nobs[i], o2):
+            col.violation(SIG.format(entry, "stored-successor!=that-step's-successor"), dict(det, index=i, stored=nobs[i], expected=o2))
+            break
+
+
 def by_episode(env, start=0):
     out, cur = [], None
     for e in env.log[start:]:
@@ -288,6 +316,7 @@ def reinforce_item(item, col):
         if boundary:
             col.outcome("runs_crossing_an_episode_boundary")
         check_dataset(col, "reinforce.sample_trajectories", ds, eps, det)
+        check_prepared(col, ds, eps, env, det)
         exp = [t[0] for ep in eps for t in ep]
         col.outcome("acting_calls_observed", len(acting))
         if len(acting) != len(exp) or any(not np.array_equal(a, e) for a, e in zip(acting, exp)):
@@ -488,12 +517,13 @@ class _Relabel:
     entry (o_t, a_t), by the textbook amount computed from the ground-truth transition of the
     environment log) decides C01's clause for the tabular learners; its findings are re-labelled."""
 
-    def __init__(self, col):
+    def __init__(self, col, prefix="tabular-update-not-from-the-env-transition:"):
         self._col = col
+        self._prefix = prefix
 
     def violation(self, signature, detail=None, item=None):
         parts = signature.split("|")
-        self._col.violation(SIG.format(parts[1], "tabular-update-not-from-the-env-transition:" + parts[2]), detail)
+        self._col.violation(SIG.format(parts[1], self._prefix + parts[2]), detail)
 
     def __getattr__(self, name):
         return getattr(self._col, name)
@@ -509,6 +539,14 @@ def tabular_item(item, col):
     proxy = _Relabel(col)
     for it in its:
         c14.work(it, proxy)
+    # acting: with epsilon 0 the action passed to the environment must be greedy, on the table held before the
+    # step, AT THE CURRENT OBSERVATION (C13's tabular-loop oracle, re-labelled)
+    from checks import c13
+
+    acting = [i for i in c13.items(item["tier"], item["seed"]) if i["kind"] == "tabloop" and i["algo"] == item["algo"]]
+    proxy2 = _Relabel(col, "acting-not-conditioned-on-the-current-observation:")
+    for it in acting:
+        c13.work(it, proxy2)
     col.sample(dict(kind="tabular prefix differencing (C14 history oracle)", learner=item["algo"], config=first, items=len(its)))
 
 
